@@ -104,7 +104,7 @@ pub struct InnerProductArgPC;
 impl InnerProductArgPC {
 //@stub from=ipa.rs id=ipa.succinct_check
 //@stub from=ipa.rs id=ipa.cm_commit
-//@fn id=ipa.batch_check file=poly-commit/src/ipa_pc/mod.rs scope="impl<G, D, P> PolynomialCommitment<G::ScalarField, P> for InnerProductArgPC<G, D, P>" name=batch_check props=C05,C10,C11
+//@fn id=ipa.batch_check file=poly-commit/src/ipa_pc/mod.rs scope="impl<G, D, P> PolynomialCommitment<G::ScalarField, P> for InnerProductArgPC<G, D, P>" name=batch_check props=C05,C10,C11,C17
     #[verifier::loop_isolation(false)]
     fn batch_check<'a>(vk: &VerifierKey, commitments: Vec<&'a LabeledCommitment<Commitment>>, query_set: &BTreeSet<(String, (String, Fr))>, values: &BTreeMap<(String, Fr), Fr>, proof: &Vec<Proof>, sponge: &mut Sponge, rng: &mut Rng) -> (res: Result<bool, Error>)
     requires
@@ -112,7 +112,7 @@ impl InnerProductArgPC {
         forall|i: int| 0 <= i < commitments@.len() ==> ((#[trigger] commitments@[i]).degree_bound is Some ==> commitments@[i].degree_bound->Some_0 <= vk.comm_key@.len() - 1),
         forall|i: int| 0 <= i < proof@.len() ==> min((#[trigger] proof@[i]).l_vec@.len(), proof@[i].r_vec@.len()) < 32,
     ensures
-        res is Ok ==> ibatch_post(vk, commitments@, query_set@, values@, proof@, old(sponge).st@, old(rng).id@, old(rng).pos@, res),   // name=ipa.batch_check.all_succinct_checks_and_randomised_final_key props=C05,C10,C11
+        res is Ok ==> ibatch_post(vk, commitments@, query_set@, values@, proof@, old(sponge).st@, old(rng).id@, old(rng).pos@, res),   // name=ipa.batch_check.all_succinct_checks_and_randomised_final_key props=C05,C10,C11,C17
 //@body
 //@rw 1 /(?s)let commitments: BTreeMap<_, _> = (commitments\.into_iter\(\)\.map\(.*?\))\.collect\(\);/ => let cv__: Vec<(&String, &LabeledCommitment<Comm>)> = \1.collect();
         let commitments: BTreeMap<&String, &LabeledCommitment<Comm>> = btree_from_pairs(cv__);
